@@ -679,11 +679,48 @@ def classify_effects(fn, body, loop_ids, node, chain):
     c = fn["crate"]
     r = Render(c)
     declared = set(loop_ids)
+    pm_body = parent_map(body)
+    inner_lets = set()
+    for n in walk(body):
+        if n.get("k") == "LetStmt":
+            for b in pat_bindings(n["pat"]):
+                inner_lets.add(b["local"])
+
+    def lends_outer_state(cl):
+        """the closure is handed to a call whose receiver chain borrows a local from outside the loop mutably
+        (`Zip::from(&mut best).and(&mut *y).for_each(|b, t, ..| ..)`, `best.iter_mut().zip(..).for_each(..)`): its
+        parameters are then windows into that outer state, not per-iteration temporaries"""
+        call = pm_body.get(id(cl))
+        while call is not None and call.get("k") not in ("MethodCall", "Call"):
+            call = pm_body.get(id(call))
+        if call is None:
+            return False
+        parts = [call["recv"]] + [a for a in call["args"] if a is not cl] if call.get("k") == "MethodCall" else [a for a in call["args"] if a is not cl]
+        for part in parts:
+            for y in walk(part):
+                tgt = None
+                if y.get("k") == "Ref" and y.get("mut"):
+                    tgt = y["e"]
+                elif y.get("k") == "MethodCall" and (y["name"].endswith("_mut") or y["name"] in ("drain",)):
+                    tgt = y["recv"]
+                if tgt is None:
+                    continue
+                rl = root_local(tgt)
+                if rl is None:
+                    b = peel_refs(tgt)
+                    while b.get("k") in ("Unary", "Field", "Index", "MethodCall"):
+                        b = peel_refs(b.get("e") or b.get("recv"))
+                    rl = b if b.get("k") == "Path" and "local" in b else None
+                if rl is not None and rl["local"] not in set(loop_ids) | inner_lets:
+                    return True
+        return False
     for n in walk(body):
         if n.get("k") == "LetStmt":
             for b in pat_bindings(n["pat"]):
                 declared.add(b["local"])
         if n.get("k") in ("Closure",):
+            if lends_outer_state(n):
+                continue
             for p in n["params"]:
                 for b in pat_bindings(p):
                     declared.add(b["local"])
